@@ -37,6 +37,15 @@ impl Default for Stats { fn default() -> (r: Self) ensures r.pop() == 0, r.succ(
 //@loop 0| invariant self.succ() <= self.pop(), old(self).pop() + data.len() < usize::MAX, forall|x: &T| #[trigger] is_success.requires((x,)), pred_is_function(is_success),
 //@loop 0|     self.pop() == old(self).pop() + it.index@, self.succ() == old(self).succ() + count_if(data@, it.index@ as int, is_success),
 //@endimpl
+// FromIterator<bool>: verified as an inherent function (a trait-method implementation cannot carry `requires`), the by-value
+// iterable monomorphised to Vec<bool> (rule R4)
+//@impl src/proportion.rs impl FromIterator<bool> for Stats => impl Stats
+//@fn from_iter ret r vis pub
+//@| requires iter.len() < usize::MAX,
+//@| ensures r.pop() == iter.len(), r.succ() == count_true(iter@, iter.len() as int),
+//@loop 0| invariant stats.succ() <= stats.pop(), iter.len() < usize::MAX,
+//@loop 0|     stats.pop() == it.index@, stats.succ() == count_true(iter@, it.index@ as int),
+//@endimpl
 // how many elements of the prefix the predicate closure accepts (through the closure's own postcondition)
 pub open spec fn accepts<T, F: Fn(&T) -> bool>(f: F, x: T) -> bool { f.ensures((&x,), true) }
 // the predicate is a function of its argument (it cannot answer both true and false for the same element)
